@@ -20,6 +20,7 @@ TECHNIQUE = (
     "the cache file (every truncation length, every value of every header byte, bit flips, zeroed blocks, appended bytes) "
     "and crash-point enumeration of the real cache-writing code (writer killed after N bytes via RLIMIT_FSIZE)"
 )
+TECHNIQUE += "; " + 'also: merged token streams, punctuation runs around id./supra/stop-word/section tokens, every continuation-byte value, several tokenizers sharing one cache directory'
 RULE = (
     "matrix: for each of the 6.8k extractors one witness (shortest word of its regex NFA) x all ordered neighbour pairs from a "
     "7-symbol set (quick) / 12-symbol set plus 36 two-character neighbours (thorough), ASCII and multi-byte; punct: every id./supra/stop-word/section witness x every run of <= 3 punctuation marks (ASCII and multi-byte) on each side; docs: all concatenations of <= k "
